@@ -81,6 +81,10 @@ pub fn streams(thorough: bool) -> Vec<(String, Vec<u8>)> {
         let verf: Vec<u8> = (0..8).map(|k| 0x61 + k as u8).collect();
         v.push(("rpc-getport2-c20-v8".into(), apprpc::with_record_mark(&apprpc::build_call(0x61626364, 2, 100000, 2, 3, &cred, &verf))));
     }
+    // request lines WITHOUT a version (never answered, however they are cut)
+    v.push(("http-versionless-crlf".into(), b"GET /index.html\r\n\r\n".to_vec()));
+    v.push(("http-versionless-lf".into(), b"HEAD /\n\n".to_vec()));
+    v.push(("http-versionless-header".into(), b"GET /a\r\nHost: x\r\n\r\n".to_vec()));
     v
 }
 
